@@ -906,6 +906,9 @@ func runC01(c *caseWriter) (string, bool, map[string]int) {
 		"<a {{if .F}}title{{end}}{{if .T}}{{end}}=\"{{.A}}\">k</a>", "<a {{if .T}}title{{else}}alt{{end}}{{if .F}}{{end}}=\"{{.A}}\">k</a>", "<a {{if .F}}title{{else}}onclick{{end}}{{if .F}}{{end}}=\"{{.A}}\">k</a>",
 		"{{if .T}}<script{{else}}<div{{end}}{{if .T}} {{end}}>{{.A}}</script>", "{{if .F}}<b{{else}}<i{{end}}{{if .T}} {{end}}title=\"{{.A}}\">k", "<a href=\"{{if .T}}{{else}}java{{end}}{{.A}}\">k</a>",
 		"<a href=\"{{if .F}}{{else}}/p/{{end}}{{.A}}\">k</a>", "<a title=\"{{if .F}}{{else}}x{{end}}{{.A}}\">k</a>",
+		// D43 on the name of a special element (thorough-tier case placement#224393, kept as a directed one): the
+		// engine reads <STYLE>, the tokenizer <STYLEx>, whose content is markup
+		"Hello, World<STYLE{{with .A}}x{{end}}>a>b{}<!--</STYLE >{{.S}}<nav >k<li></li></nav>", "<title{{if .T}}x{{end}}><!--</title>{{.A}}<b>k</b>",
 	} {
 		c01Emit(c, t, "", sh, idx, 3)
 		for _, h := range c01Hostile {
